@@ -329,3 +329,30 @@ P('fam_run_cap', [E2, 'relation path(i32, i32)', 'relation far(i32)'],
 P('fam_generic_where', ['relation edge(N, N)', 'relation path(N, N)', 'relation src(N)', 'relation reach(N)'],
   ['path(x, y) <-- edge(x, y)', 'path(x, z) <-- edge(x, y), path(y, z)', 'reach(y) <-- src(x), path(x, y)'],
   sig='pub struct P<N> where N: Clone + Eq + std::hash::Hash;', tags=['family', 'generic'])
+
+# combinations of surface forms inside one rule (each pair of desugarings meets at least once)
+COMBO = ['relation r(i32)', 'relation s(i32, i32, Option<i32>)', 'relation t(i32, i32)', 'relation out(i32, i32)', 'relation o1(i32)']
+both('fam_combo', COMBO,
+     ['out(x, w) <-- r(x), s(y, x + y, ?Some(z)), t(z, w)',
+      'out(x, w) <-- r(x), s(y, y, ?Some(z)), t(z, w)',
+      'out(x, w) <-- s(y, y + 1, ?Some(z)), t(z, w), r(x)',
+      'out(x, w) <-- r(x), s(y, x, ?Some(z)) if *z > 0, t(z, w)',
+      'o1(z) <-- s(_, a, ?Some(z)), s(a, _, ?None), t(z, z)',
+      'out(x, z) <-- r(x), s(x, x, ?Some(z)), !t(z, x)',
+      'out(a, z) <-- s(a, a + 1, ?Some(z)), agg c = count() in t(z, _), if c > 0',
+      'out(x, w) <-- r(x), s(x, _, q), if let Some(z) = q, t(z, w), if w != x',
+      'o1(y), out(y, z) <-- for y in 0..3, s(y, y, ?Some(z)), let k = y + z, r(k)'], tags=['family', 'combo'])
+
+# identifiers that are NOT rule variables (statics / consts, locals captured by ascent_run!) used as clause, negation and aggregation keys
+FREE_PRE = 'pub static ADMIN: i32 = 1; pub const REGION: i32 = 7;'
+both('fam_free_ident', ['relation user(i32)', 'relation owns(i32, i32)', 'relation sales(i32, i32)', 'relation free_for_admin(i32)',
+                        'relation region_total(i32)', 'relation admin_owned(i32)', 'relation n_admin(usize)'],
+     ['free_for_admin(x) <-- user(x), !owns(ADMIN, x)',
+      'region_total(s) <-- agg s = sum(v) in sales(REGION, v)',
+      'n_admin(c) <-- agg c = count() in owns(ADMIN, _)',
+      'admin_owned(x) <-- user(x), agg c = count() in owns(ADMIN, x), if *x > REGION && c > 0'], pre=FREE_PRE, tags=['family', 'agg', 'neg', 'free_ident'])
+P('fam_free_ident_run', ['relation child(i32, i32)', 'relation root_children(usize)', 'relation below(i32)', 'relation lonely(i32)'],
+  ['child(*a, *b) <-- for (a, b) in input.iter()',
+   'root_children(c) <-- agg c = count() in child(root, _)',
+   'below(x) <-- child(r, x), if *r == root',
+   'lonely(x) <-- child(_, x), !child(root, x)'], macro='ascent_run', params='input: &[(i32, i32)], root: i32', tags=['family', 'agg', 'neg', 'free_ident', 'run'])
